@@ -3902,7 +3902,10 @@ where
           1 => {
             if is_ident_time_data_type(self.state.cddl, ident) {
               if let Value::Integer(value) = *value.as_ref() {
-                let dt = Utc.timestamp_opt(value.try_into().unwrap(), 0);
+                let dt = match value.try_into() {
+                  Ok(seconds) => Utc.timestamp_opt(seconds, 0),
+                  Err(_) => chrono::LocalResult::None,
+                };
                 if let chrono::LocalResult::None = dt {
                   self.add_error(format!(
                     "expected time data type, invalid UNIX timestamp {:?}",
@@ -4710,12 +4713,8 @@ where
                 )
               })
           }
-          _ => Some(format!(
-            "expected value {} {}, got {:?}",
-            self.state.ctrl.unwrap(),
-            t,
-            b
-          )),
+          Some(ctrl) => Some(format!("expected value {} {}, got {:?}", ctrl, t, b)),
+          None => Some(format!("expected value {}, got {:?}", t, b)),
         },
         #[cfg(feature = "additional-controls")]
         token::Value::BYTE(bv) => match &self.state.ctrl {
